@@ -1,9 +1,10 @@
 (* C05 — Bit-packed boolean maps are indistinguishable from ordinary boolean maps.
-   Statements only; proofs in PackedProofs.v.  The map-level layout theorems (C01, C02, C04, C11)
+   Statements only; proofs in PackedProofs.v (views) and PackedOps.v (the byte-level bulk and
+   index-array operations).  The map-level layout theorems (C01, C02, C04, C11)
    are generic in the cell type and hold at V = bool whatever the storage; what is specific to the
    packed storage is the addressing of bits through slice views, proved here for every alignment
    and nesting depth, and compared with the implementation's view objects on every run. *)
-From HS Require Import Prelude Packed PackedProofs.
+From HS Require Import Prelude Packed PackedProofs PackedOps.
 Open Scope Z_scope.
 
 (* a slice [a, b) of a well-formed view is a well-formed view of b - a bits whose bit 0 is the
@@ -47,6 +48,45 @@ Proof. exact extract_fml_disjoint. Qed.
 Theorem C05_population_count_table : forall x, 0 <= x < 256 -> lut_entry x = popcount8 x.
 Proof. exact lut_popcount_all. Qed.
 
+(* every bulk operation (slice assignment of a boolean / array / aligned packed operand, &= |= ^= with
+   a boolean or an aligned packed operand, invert), as implemented on the bytes — edge bytes unpacked,
+   modified on their bit range and packed again, middle bytes operated on whole — changes exactly the
+   bits of the view, each to the boolean operation of its old value and the operand's bit, and leaves
+   every other bit of the buffer (padding, neighbours' bits in shared bytes) unchanged: for every
+   well-formed view, i.e. every alignment and length *)
+Theorem C05_bulk_operations_change_exactly_the_bits_of_the_view :
+  forall (o : bop) (v : pview) (data : list Z) (ob : Z -> Z),
+    view_ok v -> vds v = 0 -> vde v = zlen data -> 0 < vsize v -> bytes_ok data ->
+    (forall j, 0 <= ob j < 256) ->
+    let data' := bulk_op o v data ob in
+    zlen data' = zlen data /\ bytes_ok data' /\
+    forall k, 0 <= k < 8 * zlen data ->
+      Z.testbit (znth 0 data' (k / 8)) (k mod 8) =
+      if (vsi v <=? k) && (k <? vst v)
+      then bfun o (Z.testbit (znth 0 data (k / 8)) (k mod 8)) (Z.testbit (ob (k / 8)) (k mod 8))
+      else Z.testbit (znth 0 data (k / 8)) (k mod 8).
+Proof. exact bulk_op_spec. Qed.
+
+(* index-array assignment (np.bitwise_or.at / np.bitwise_and.at on the bytes): exactly the listed bits
+   end set (cleared), repeated locations included, every other bit keeps its value; reading a bit
+   through the mask test returns it *)
+Theorem C05_set_bits_at_locations :
+  forall (locs : list Z) data k,
+    (forall p, In p locs -> 0 <= p < 8 * zlen data) -> 0 <= k < 8 * zlen data ->
+    zlen (set_bits locs data) = zlen data /\
+    bit (set_bits locs data) k = existsb (Z.eqb k) locs || bit data k.
+Proof. exact set_bits_spec. Qed.
+
+Theorem C05_clear_bits_at_locations :
+  forall (locs : list Z) data k,
+    (forall p, In p locs -> 0 <= p < 8 * zlen data) -> 0 <= k < 8 * zlen data ->
+    zlen (clear_bits locs data) = zlen data /\
+    bit (clear_bits locs data) k = negb (existsb (Z.eqb k) locs) && bit data k.
+Proof. exact clear_bits_spec. Qed.
+
+Theorem C05_test_bit_at_location : forall t p, 0 <= p -> test_bit_at t p = bit t p.
+Proof. exact test_bit_at_spec. Qed.
+
 Example C05_hypotheses_satisfiable :
   view_ok (mkview 0 8 0 64) /\
   slice_view (mkview 0 8 0 64) (Some 3) (Some 40) = Some (mkview 0 5 3 40) /\
@@ -59,4 +99,8 @@ Print Assumptions C05_nested_slices_compose.
 Print Assumptions C05_decomposition_covers_exactly_the_view.
 Print Assumptions C05_decomposition_parts_are_disjoint.
 Print Assumptions C05_population_count_table.
+Print Assumptions C05_bulk_operations_change_exactly_the_bits_of_the_view.
+Print Assumptions C05_set_bits_at_locations.
+Print Assumptions C05_clear_bits_at_locations.
+Print Assumptions C05_test_bit_at_location.
 Print Assumptions C05_hypotheses_satisfiable.
